@@ -20,7 +20,9 @@
                                                  C12-4 (the 204 stack shared) one walk aborted between 204004 and
                                                  204000 makes the next, valid, message fail with a bit-read error.
   All of `Props/C12.lean`, `C12Msg.lean`, `C12Stream.lean`, `C12History.lean` is stated for `decodeData` /
-  `Stream.tableCoder`; `C12_aborted_tableCoder` transfers it to the data coder of a process with any history.
+  `Stream.tableCoder`; `C12_aborted_tableCoder` transfers it to the data coder of a process with any history, and
+  `C12_aborted_decoder_history_irrelevant` combines both state machines: the Decoder object's table of section
+  configurations AND the registers left by the last walk, over any history of operations.
 
   What this cannot show: that Python's `reset_template_state` gives every register an object of its OWN (aliasing
   is below the model).  Part (F) of the check does: after every aborted walk the registers of a new `CoderState`
@@ -29,6 +31,7 @@
 -/
 import BufrModel.Coder.Process
 import BufrModel.Msg.Stream
+import BufrModel.Props.C12History
 namespace Bufr
 
 /-- `reset_template_state` assigns every register: whatever the registers were, afterwards they are the initial
@@ -152,6 +155,38 @@ theorem C12_aborted_tableCoder (reset : Regs → Regs) (hreset : ∀ r, reset r 
   funext tmpl comp n bits
   exact C12_aborted_data_eq reset hreset tmpl comp n r bits
 
+/-- the Decoder OBJECT (its table of section configurations, `Props/C12History.lean`) together with the coder registers
+    the last template walk of the process left: every operation runs with the data coder of a process in that state,
+    and leaves ANY registers behind (`left`, chosen by the history: a scan walks many templates and may abort any of
+    them anywhere) -/
+def runHistW (reset : Regs → Regs) (L : Layouts) (T : Tables) :
+    List (Stream.Op (List SubsetOut) × Regs) → Stream.Memo × Regs → Stream.Memo × Regs
+  | [], s => s
+  | (op, left) :: ops, (m, r) => runHistW reset L T ops ((op.run L (tableCoderW reset T r) m).2, left)
+
+theorem runHistW_fst (reset : Regs → Regs) (hreset : ∀ r, reset r = {}) (L : Layouts) (T : Tables) :
+    ∀ (hist : List (Stream.Op (List SubsetOut) × Regs)) (m : Stream.Memo) (r : Regs),
+      (runHistW reset L T hist (m, r)).1 = Stream.runHist L (Stream.tableCoder T) (hist.map (·.1)) m := by
+  intro hist
+  induction hist with
+  | nil => intro m r; rfl
+  | cons a as ih =>
+    intro m r
+    obtain ⟨op, left⟩ := a
+    simp only [runHistW, List.map_cons, Stream.runHist]
+    rw [ih, C12_aborted_tableCoder reset hreset]
+
+/-- **Decoder object and coder registers together**: after ANY history of operations on one Decoder — strict, lenient,
+    metadata-only, failing decodes, scans with any flags — each of which may have aborted template walks anywhere and left
+    any registers behind, an operation gives the result of the stateless model over `Stream.tableCoder T`; so every
+    C12 / C11 theorem stated for the stateless model holds for a Decoder in a process with any such history. -/
+theorem C12_aborted_decoder_history_irrelevant (reset : Regs → Regs) (hreset : ∀ r, reset r = {}) (L : Layouts) (T : Tables)
+    (hist : List (Stream.Op (List SubsetOut) × Regs)) (r0 : Regs) (op : Stream.Op (List SubsetOut)) :
+    (op.run L (tableCoderW reset T (runHistW reset L T hist ([], r0)).2) (runHistW reset L T hist ([], r0)).1).1 =
+      op.pure L (Stream.tableCoder T) := by
+  rw [C12_aborted_tableCoder reset hreset, runHistW_fst reset hreset]
+  exact Stream.C12_history_irrelevant L (Stream.tableCoder T) _ op
+
 /-! ## non-vacuity, and why the hypothesis is needed -/
 
 namespace C12Ab
@@ -193,6 +228,16 @@ open C12Ab in
 /-- the same through the theorem (any history, any starting registers) -/
 example (r0 : Regs) : (opValid.run Regs.reset (runP Regs.reset hist r0)).1 = decodeData valid false 2 (bits ++ bits) :=
   C12_aborted_walk_leaves_no_trace _ C12_aborted_reset_assigns_every_register hist r0 opValid
+
+open C12Ab in
+/-- the combined statement instantiated: the reset of the code, the bundled layouts, a table group, a history of a
+    strict decode that leaves every register dirty and a lenient continue-on-error scan that leaves `[4]` on the 204 stack -/
+example (T : Tables) (op : Stream.Op (List SubsetOut)) :
+    let hist : List (Stream.Op (List SubsetOut) × Regs) :=
+      [(.process true false false C12Msg.msg, dirty), (.scan false true true none (C12Msg.msg ++ C12Msg.msg), { assocStack := [4] })]
+    (op.run Gen.layouts (tableCoderW Regs.reset T (runHistW Regs.reset Gen.layouts T hist ([], {})).2)
+        (runHistW Regs.reset Gen.layouts T hist ([], {})).1).1 = op.pure Gen.layouts (Stream.tableCoder T) :=
+  C12_aborted_decoder_history_irrelevant _ C12_aborted_reset_assigns_every_register _ _ _ _ _
 
 open C12Ab in
 /-- **the hypothesis carries the result**: with the reset of seeded change C12-4 (`Regs.resetShared204`: the 204
